@@ -39,6 +39,7 @@ pub struct Ctx {
     pub files: BTreeMap<String, syn::File>,
     pub file_ranges: BTreeMap<String, (usize, usize)>,
     pub local_mods: BTreeSet<String>,   // child modules declared in the files read so far: paths rooted there are crate-local (rule N1)
+    pub baseline_fns: BTreeSet<String>,   // names of all functions of the pinned tree (contracts/FNS.txt): a function not in it is a helper an edit added (rule H1)
     pub pending: Vec<(Vec<syn::Generics>, rewrite::LiftedClosure, String)>,   // lifted closures of methods inside an open trait / impl block
 }
 impl Ctx {
@@ -468,6 +469,12 @@ fn emit_fn(cx: &mut Ctx, specs: &mut Specs, em: &mut Emitter, ex: &Extract, file
     em.file_ranges = cx.file_ranges.clone();
     let base_name = ex.path.rsplit("::").next().unwrap().to_string();
     let mut f = fd.f.clone();
+    // H1: calls of helper functions an edit split off (not in the pinned tree's list of function names) are replaced by their bodies
+    if fd.tr.is_none() && !cx.baseline_fns.is_empty() {
+        let head = fd.im.as_ref().map(|im| type_head(&im.self_ty));
+        let helpers = rewrite::new_helpers(file, head.as_deref(), &cx.baseline_fns);
+        rewrite::inline_new_helpers(&mut f.block, &helpers, cx);
+    }
     let mut tr_generics: Option<syn::Generics> = None;
     if let Some(tr) = &fd.tr {
         // S3: a default method of a trait becomes a free function over `SelfT: Trait`
@@ -1417,7 +1424,7 @@ fn rename_ident(ts: TokenStream, from: &str, to: &str) -> TokenStream {
 
 fn main() {
     let args: Vec<String> = std::env::args().collect();
-    let mut unit_path = None; let mut repo = PathBuf::from("/repo"); let mut out = None; let mut map = None; let mut probe = false; let mut root = PathBuf::from("."); let mut dropbody: BTreeSet<String> = BTreeSet::new(); let mut params: BTreeMap<String, Vec<String>> = BTreeMap::new(); let mut dump_params_to: Option<PathBuf> = None; let mut extra_extracts: Vec<String> = vec![]; let mut extra_specs: Vec<String> = vec![]; let mut extra_traced: Vec<String> = vec![]; let mut extra_types: Vec<String> = vec![]; let mut extra_eager: Vec<String> = vec![];
+    let mut unit_path = None; let mut repo = PathBuf::from("/repo"); let mut out = None; let mut map = None; let mut probe = false; let mut root = PathBuf::from("."); let mut dropbody: BTreeSet<String> = BTreeSet::new(); let mut params: BTreeMap<String, Vec<String>> = BTreeMap::new(); let mut dump_params_to: Option<PathBuf> = None; let mut extra_extracts: Vec<String> = vec![]; let mut extra_specs: Vec<String> = vec![]; let mut extra_traced: Vec<String> = vec![]; let mut extra_types: Vec<String> = vec![]; let mut extra_eager: Vec<String> = vec![]; let mut baseline_fns: BTreeSet<String> = BTreeSet::new();
     let mut i = 1;
     while i < args.len() {
         match args[i].as_str() {
@@ -1429,6 +1436,7 @@ fn main() {
             "--probe" => probe = true,
             "--params" => { i += 1; if let Ok(t) = std::fs::read_to_string(&args[i]) { // a flat JSON object {"key": ["a", "b"], ..} written by --dump-params
                     for line in t.lines() { let line = line.trim().trim_end_matches(','); if let Some((k, v)) = line.split_once("\": [") { let k = k.trim().trim_start_matches('"').to_string(); let v: Vec<String> = v.trim_end_matches(']').split(',').map(|x| x.trim().trim_matches('"').to_string()).filter(|x| !x.is_empty()).collect(); params.insert(k, v); } } } }
+            "--fns" => { i += 1; if let Ok(t) = std::fs::read_to_string(&args[i]) { for l in t.lines() { let l = l.trim(); if !l.is_empty() && !l.starts_with('#') { baseline_fns.insert(l.to_string()); } } } }
             "--dump-params" => { i += 1; dump_params_to = Some(PathBuf::from(&args[i])); }
             "--extra-extract" => { i += 1; extra_extracts.push(args[i].clone()); }
             "--extra-spec" => { i += 1; extra_specs.push(args[i].clone()); }
@@ -1452,7 +1460,7 @@ fn main() {
     for t in &extra_types { if let Some((a, b)) = t.split_once("=>") { let pair = (a.trim().to_string(), b.trim().to_string()); if !unit.types.iter().any(|(x, _)| x == &pair.0) { unit.types.push(pair); } } }
     for t in &extra_traced { unit.traced.insert(t.clone()); }
     for t in &extra_eager { unit.eager.insert(t.clone()); unit.traced.insert(t.clone()); }
-    let mut cx = Ctx { unit, repo, probe, rules: BTreeMap::new(), errors: vec![], soft: vec![], uncontracted: vec![], consts_done: BTreeSet::new(), params: params.clone(), dump_params: BTreeMap::new(), cur_fn: String::new(), dropbody: dropbody.clone(), dropped: vec![], dropped_notes: vec![], files: BTreeMap::new(), file_ranges: BTreeMap::new(), local_mods: BTreeSet::new(), pending: vec![] };
+    let mut cx = Ctx { unit, repo, probe, rules: BTreeMap::new(), errors: vec![], soft: vec![], uncontracted: vec![], consts_done: BTreeSet::new(), params: params.clone(), baseline_fns: baseline_fns.clone(), dump_params: BTreeMap::new(), cur_fn: String::new(), dropbody: dropbody.clone(), dropped: vec![], dropped_notes: vec![], files: BTreeMap::new(), file_ranges: BTreeMap::new(), local_mods: BTreeSet::new(), pending: vec![] };
     let mut specs = Specs::default();
     specs.defines = cx.unit.defines.clone();
     for s in cx.unit.specs.clone() { if let Err(e) = specs.load(&root.join(&s)) { eprintln!("hx: {}", e); std::process::exit(2); } }
